@@ -82,6 +82,7 @@ pub fn show_resp(r: &RespVec) -> String {
 pub struct Entry {
     pub val: Vec<u8>,
     pub expire_at: Option<u64>, // simulated ms
+    pub seq: u64,               // insertion number of the key (drives SCAN order)
 }
 
 pub type Script = Box<dyn FnMut(&Cmd) -> Option<RespVec> + Send>;
@@ -92,6 +93,7 @@ pub struct RedisNode {
     pub slaveof: Option<String>,
     /// optional override: return Some(reply) to answer instead of the built-in behaviour
     pub script: Option<Script>,
+    next_seq: u64,
 }
 
 fn ok() -> RespVec {
@@ -117,7 +119,7 @@ const DUMP_PREFIX: &[u8] = b"DUMP1:";
 
 impl RedisNode {
     pub fn new(addr: &str) -> RedisNode {
-        RedisNode { addr: addr.to_string(), data: BTreeMap::new(), slaveof: None, script: None }
+        RedisNode { addr: addr.to_string(), data: BTreeMap::new(), slaveof: None, script: None, next_seq: 1 }
     }
 
     fn live(&mut self, key: &[u8], now: u64) -> Option<&mut Entry> {
@@ -134,7 +136,14 @@ impl RedisNode {
     }
 
     fn set(&mut self, key: &[u8], val: &[u8], expire_at: Option<u64>) {
-        self.data.insert(key.to_vec(), Entry { val: val.to_vec(), expire_at });
+        let seq = match self.data.get(key) {
+            Some(e) => e.seq,
+            None => {
+                self.next_seq += 1;
+                self.next_seq - 1
+            }
+        };
+        self.data.insert(key.to_vec(), Entry { val: val.to_vec(), expire_at, seq });
     }
 
     pub fn exec(&mut self, c: &Cmd, now: u64) -> RespVec {
@@ -382,13 +391,10 @@ impl RedisNode {
                     return err("BUSYKEY Target key name already exists.");
                 }
                 let val = c[3][DUMP_PREFIX.len()..].to_vec();
-                self.set(&c[1], &val, if ttl == 0 { None } else { Some(now + ttl) });
+                self.set(&c[1], &val, if ttl == 0 { None } else { Some(now.saturating_add(ttl)) });
                 ok()
             }
             "SCAN" => {
-                // cursor = index into the sorted key space (stable under deletion of already
-                // returned keys is NOT needed: the cursor encodes the last returned key rank by
-                // value, see below)
                 if argn < 2 {
                     return wrong();
                 }
@@ -400,29 +406,21 @@ impl RedisNode {
                     }
                     i += 2;
                 }
-                // The cursor is "0" or the hex of the last key returned; the scan continues with
-                // keys strictly greater, so a key present throughout the scan is returned exactly
-                // once, whatever is deleted or inserted in between (Redis' SCAN guarantee).
-                let start: Option<Vec<u8>> = if c[1] == b"0" { None } else { Some(unhex(&c[1])) };
-                let keys = self.keys(now);
-                let mut out = vec![];
-                let mut last: Option<Vec<u8>> = None;
-                let mut more = false;
-                for k in keys {
-                    if let Some(s) = &start {
-                        if &k <= s {
-                            continue;
-                        }
-                    }
-                    if out.len() == count {
-                        more = true;
-                        break;
-                    }
-                    last = Some(k.clone());
-                    out.push(bulk(&k));
-                }
-                let cursor = if more { hex(&last.unwrap_or_default()) } else { b"0".to_vec() };
-                Resp::Arr(Array::Arr(vec![bulk(&cursor), Resp::Arr(Array::Arr(out))]))
+                // Keys are visited in insertion order; the cursor is the insertion number to
+                // continue from.  A key present during the whole scan is therefore returned exactly
+                // once whatever is deleted or inserted meanwhile (Redis' SCAN guarantee; keys
+                // inserted during the scan get larger numbers and may be returned, as in Redis).
+                let start = match parse_i64(&c[1]) {
+                    Some(n) if n >= 0 => n as u64,
+                    _ => return err("ERR invalid cursor"),
+                };
+                let live = self.keys(now);
+                let mut items: Vec<(u64, Vec<u8>)> = live.into_iter().filter_map(|k| self.data.get(&k).map(|e| (e.seq, k))).filter(|(s, _)| *s >= start).collect();
+                items.sort();
+                let more = items.len() > count;
+                items.truncate(count);
+                let cursor = if more { items.last().map(|(s, _)| s + 1).unwrap_or(0) } else { 0 };
+                Resp::Arr(Array::Arr(vec![bulk(cursor.to_string().as_bytes()), Resp::Arr(Array::Arr(items.iter().map(|(_, k)| bulk(k)).collect()))]))
             }
             "EVAL" => {
                 // two fixed scripts: "GETALL" returns the values of all KEYS; "SETALL" sets every KEY to ARGV[1]
@@ -450,18 +448,6 @@ impl RedisNode {
             _ => err(&format!("ERR unknown command '{}'", name)),
         }
     }
-}
-
-fn hex(b: &[u8]) -> Vec<u8> {
-    let mut o = b"k".to_vec();
-    for x in b {
-        o.extend_from_slice(format!("{:02x}", x).as_bytes());
-    }
-    o
-}
-fn unhex(b: &[u8]) -> Vec<u8> {
-    let s = &b[1.min(b.len())..];
-    s.chunks(2).filter_map(|p| u8::from_str_radix(std::str::from_utf8(p).ok()?, 16).ok()).collect()
 }
 
 // ------------------------------------------------------------------------------------------------
